@@ -151,6 +151,11 @@ def _build_sp(shape, vals, how=None, dtype=None):
     d = {"kind": "sptensor", "shape": list(shape), "vals": vals, "order": _order(k, how)}
     if dtype and dtype != "float64":
         d["dtype"] = dtype
+    if k == 0 and how and "dtype" not in d:
+        # an empty operand has no stored order to vary: the ordered cases vary the FORM of the shape argument
+        # of the shape-only constructor instead (list / ndarray; the plain cases pass a tuple)
+        import pyttb as ttb
+        return ttb.sptensor(shape=list(shape) if how == "reversed" else np.array(shape))
     return H.build(d)
 
 
